@@ -368,3 +368,27 @@ def run(chk, only=None):
     ]
     chk.exhaustive = False
     chk.extra["stop_before_step"] = deps_run.STOP
+
+
+def replay(chk, path):
+    """Re-run one recorded violation: render the case again, compile it with the current tree, let TLC decide."""
+    with open(path) as f:
+        rp = json.load(f)
+    case = {k: v for k, v in rp["case"]["record"].items() if k != "obs"}
+    fam = case["fam"]
+    with Scratch("c15r") as sc:
+        try:
+            _pool()
+            obs = _observe(fam, [case])
+            rec = dict(case, obs=obs[case["id"]])
+            fails, _, res = _decide(sc, "replay", [rec], nshards=1)
+            for r in res:
+                chk.add_tlc(r, part="replay")
+            chk.traces = 1
+            for fl in fails:
+                chk.violation("%s:%s" % (fl["clause"], fam),
+                              "C15 replay %s: clause %s -- expected %s, got %s" % (case["id"], fl["clause"], fl["expected"], fl["got"]),
+                              {"record": rec, "rendered": _render_one(rec)})
+        finally:
+            _close_pool()
+    chk.rule = "replay of " + path
